@@ -220,7 +220,9 @@ ModelInstallItems(p) ==
                          [] OTHER -> ""
                tag == IF it.tag # "" THEN it.tag ELSE CASE it.kind = "headers" -> "devel" [] it.kind = "man" -> "man" [] OTHER -> ""
            IN IF it.kind \notin {"data", "headers", "man"} \/ it.rename # <<>> THEN {}
-              ELSE {<<Join(srcdir, it.files[f]), Join(base, it.files[f]), tag, it.sp>> : f \in DOMAIN it.files}
+              \* preserve_path keeps the directory part of the source below the install directory
+              ELSE {<<Join(srcdir, it.files[f]), Join(base, IF it.preserve THEN it.files[f] ELSE Base(it.files[f])), tag, it.sp>>
+                      : f \in DOMAIN it.files}
              : k \in DOMAIN p.installs}
 \* install_subdir(dir, install_dir: D [, strip_directory: true]): the directory lands in D/<dir> (in D itself when
 \* stripped); a plain relative D is shown below {prefix}, an option-derived D keeps its placeholder
